@@ -175,6 +175,7 @@ func init() {
 			out = append(out, Job{Pkg: "geometry", Harness: "H_Member_Line", Params: []int{5, kind, 1}, Timeout: 120, Scale: true, Contracts: c, NoCover: true})
 		}
 		out = append(out, Job{Pkg: "geometry", Harness: "H_Member_Rect", Timeout: 60})
+		out = append(out, Job{Pkg: "geometry", Harness: "H_Member_RectRing", Timeout: 120, Contracts: c, Unwind: 12, Note: "polygon whose rings are Rects: the generic branch of ringContainsPoint"})
 		for target := 0; target <= 2; target++ {
 			for wrap := 0; wrap <= 1; wrap++ {
 				for probe := 0; probe <= 1; probe++ {
@@ -244,6 +245,11 @@ func init() {
 			}
 		}
 		for kind := 1; kind <= 2; kind++ {
+			for _, n := range []int{0, 1} { // an index requested for a series with no segments
+				for mode := 0; mode <= 2; mode += 2 {
+					out = append(out, Job{Pkg: "geometry", Harness: "H_Search", Params: []int{n, mode, kind, 1, 0}, Timeout: 60, Combine: true, NoCover: true})
+				}
+			}
 			for _, n := range []int{2, 5, 8} {
 				for mode := 0; mode <= 2; mode++ {
 					out = append(out, Job{Pkg: "geometry", Harness: "H_Search", Params: []int{n, mode, kind, 1, 0}, Timeout: 60, Combine: true, NoCover: n > 5})
@@ -658,6 +664,12 @@ func init() {
 						out = append(out, Job{Pkg: "geojson", Harness: "H_Coll", Params: []int{ctype, cfg, pk, idx}, Timeout: 120, Scale: true, Contracts: c, NoCover: pk+idx > 0})
 					}
 				}
+				// nested multi-part probes (early stops must propagate through nested ForEach)
+				for _, pk := range []int{9, 10} {
+					for _, idx := range []int{0, 1} {
+						out = append(out, Job{Pkg: "geojson", Harness: "H_Coll", Params: []int{ctype, cfg, pk, idx}, Timeout: 120, Scale: true, Contracts: c, NoCover: true})
+					}
+				}
 				// probes large enough to contain the whole collection (within can be true with empties present)
 				for _, pk := range []int{7, 8} {
 					for idx := 0; idx <= 3; idx++ {
@@ -766,7 +778,7 @@ func init() {
 func matrixJobs(freeze int, full bool) []Job {
 	var out []Job
 	c := []string{fnRaycast, fnSegSeg}
-	n := 30
+	n := 32
 	inSet := func(x int, s ...int) bool {
 		for _, v := range s {
 			if v == x {
@@ -777,7 +789,14 @@ func matrixJobs(freeze int, full bool) []Job {
 	}
 	for a := 0; a < n; a++ {
 		for b := 0; b < n; b++ {
-			if a >= 28 || b >= 28 {
+			if a >= 30 || b >= 30 {
+				// 30: one-point line with an (empty) R-tree index; 31: polygon with degenerate holes, R-tree index
+				// (the pair (20,31) is left out: the engine cannot re-read the quadtree bytes of 20 there — an engine limit)
+				ok := a >= 30 && inSet(b, 0, 4, 7, 8, 19, 21, 30, 31) || b >= 30 && inSet(a, 0, 7, 8, 19, 21)
+				if !ok {
+					continue
+				}
+			} else if a >= 28 || b >= 28 {
 				// 28: FeatureCollection with non-Feature children; 29: GeometryCollection with its child index built
 				ok := a >= 28 && inSet(b, 0, 3, 7, 8, 9, 10, 19, 23, 28, 29) || b >= 28 && inSet(a, 0, 1, 7, 8, 9, 10, 19, 20, 23)
 				if !ok {
